@@ -33,13 +33,14 @@ LEVEL_TEXT = (
     'the cases where the sentinel -1 or the falsy id 0 reaches an index '
     'expression - a property of the code, found without constructing the '
     'topology. Loadability by the LiteRT interpreter is not decided.'
+    ' Decision tables / simulations (abstract interpreter, exhaustive over their listed lattices only): graph-info generator, performer id translation, op-id bookkeeping after insertions and replacements, graph rewrite against a reference rewriting, whole pipeline on label models.'
 )
 LEVEL_NOTE = (
     'Trusted: sa CFG/def-use engines; flatbuffer object model (OperatorT, '
     'TensorT). Blind spots listed in DESIGN.md section 8 (producer-id formula '
     'of _update_instructions, consumer grouping).'
 )
-TECHNIQUE = 'CFG must-call / guarded-use (sentinel taint) / construction-shape rules on ast (static)'
+TECHNIQUE = 'CFG must-call / guarded-use (sentinel taint) / construction-shape rules on ast + abstract interpretation of the repository functions over a finite lattice (decision tables / label-model simulations compared with an independent expectation) (static)'
 
 PERF = 'transformation_performer:TransformationPerformer'
 TIG = 'transformation_instruction_generator:TransformationInstructionsGenerator'
